@@ -124,6 +124,13 @@ pub fn ln_needles(lengths: &[usize], max_u: usize) -> Vec<Vec<u8>> {
                 out.push(rep(&w, l));
             }
         }
+        // alphabet-rich needles (many distinct bytes, many residues mod 64)
+        out.push((0..l).map(|i| i as u8).collect()); // identity table prefix
+        out.push((0..l).map(|i| 255 - (i as u8)).collect());
+        out.push((0..l).map(|i| 64u8.wrapping_add(i as u8)).collect()); // '@ABC...' ASCII chart order
+        out.push((0..l).map(|i| (i as u8).wrapping_mul(37).wrapping_add(11)).collect());
+        out.push((0..l).map(|i| 48 + (i % 43) as u8).collect());
+        out.push((0..l).rev().map(|i| 32 + (i % 90) as u8).collect());
         // bytes equal mod 64
         out.push(rep(&[0x01, 0x41, 0x81, 0xc1], l));
         let mut v = rep(&[0x01, 0x41], l);
@@ -148,6 +155,10 @@ pub fn factor_haystacks(
     cap: usize,
 ) -> Vec<Vec<u8>> {
     let mut out = factor_haystacks_base(needle, crit, max_pieces, max_pad, cap);
+    if std::env::var("VERIF_LN_NOFLIPS").is_ok() {
+        // reduced set for runs under valgrind
+        return out;
+    }
     // near-occurrences with a change at EVERY position (single byte, and a
     // run from that position of up to 6 bytes), in pairs separated by gaps:
     // x+needle[1..] / needle / flipped needle, then a gap, then a flipped needle
@@ -159,8 +170,11 @@ pub fn factor_haystacks(
         b[m / 2] = if b[m / 2] == b'x' { b'w' } else { b'x' };
         vec![a, b, needle[1..].to_vec()]
     };
+    // for long needles the change positions are thinned to both ends, the
+    // middle and every 8th position
+    let keep = |j: usize| m <= 80 || j < 16 || j + 16 >= m || (j + 4 >= m / 2 && j <= m / 2 + 4) || j % 8 == 0;
     for first in &firsts {
-        for j in 0..m {
+        for j in (0..m).filter(|&j| keep(j)) {
             for run in [1usize, 6] {
                 let mut second = needle.to_vec();
                 for t in j..(j + run).min(m) {
